@@ -85,7 +85,11 @@ def _inv(pw, cfg, parts):
 
 def run_config(cfg):
     res = core.Result(cfg)
-    core.begin()
+    core.run_paths(res, lambda: _run_path(res, cfg))
+    return res
+
+
+def _run_path(res, cfg):
     rt = symtorch.real_torch()
     facts = dict(dim=cfg['dim'], wave=cfg['wave'], J=cfg['J'])
     shape = (1, 1, cfg['N']) if cfg['dim'] == 1 else (1, 1, cfg['H'], cfg['W'])
@@ -156,6 +160,13 @@ def run_config(cfg):
     for gi, g in zip(cot_ids, gv):
         for a, val in zip(gi.reshape(-1), g.reshape(-1)):
             env[int(a)] = float(val)
+    pc = list(P.PATHS.taken)
+    on_path = True
+    if pc:
+        for a, val in zip(ids.reshape(-1), xr.detach().numpy().reshape(-1)):
+            env[int(a)] = float(val)
+        on_path = core.path_env_ok(env)
+        facts = dict(facts, path=[bool(d) for _, d in pc])
     acc = bo[1]
     grad_sym = [acc.get(a, P.ZERO) for a in idl]
     gs = np.array([p.evalf(env) for p in grad_sym])
@@ -166,14 +177,21 @@ def run_config(cfg):
         res.status = 'error'; res.trace = 'inverse shape differs between symbolic and real run'; return res
     iv = np.array([p.evalf(env) for p in inv_sym.a.reshape(-1)])
     dev = max(dev, float(np.abs(iv - rinv[1].detach().numpy().reshape(-1)).max()))
-    res.validated = dev
-    if dev > 1e-9:
-        res.status = 'error'; res.trace = 'symbolic run deviates from real torch by %g' % dev; return res
+    if on_path:
+        res.validated = dev if res.validated is None else max(res.validated, dev)
+        if dev > 1e-9:
+            res.status = 'error'; res.trace = 'symbolic run deviates from real torch by %g' % dev; return res
+    else:
+        res.notes.append('engine validation skipped on the data-dependent path %s (sample point is on another path)' % facts['path'])
     if tuple(inv_sym.shape) != tuple(shape):
         res.status = 'violation'
         res.violations.append(dict(what='inverse output shape %s != input shape %s' % (tuple(inv_sym.shape), shape), facts=facts, replay=dict(kind='invshape'), reproduced=True)); return res
     tau = Fraction(1, 10 ** 9)
-    st = smt.Stats(); solver = smt.Solver(stats=st)
+    st = res.stats or smt.Stats(); solver = smt.Solver(stats=st)
+    if pc:
+        for a in list(ids.reshape(-1)) + list(gflat_ids):
+            solver.var(int(a))
+        solver.add_path(pc)
     # (1) A^T A y == y
     ypoly = [Poly.var(a) for a in idl]
     z = [P.lincomb((v, ypoly[j]) for j, v in r.items()) for r in Arows]          # A y
@@ -213,10 +231,13 @@ def run_config(cfg):
         res.violations.append(dict(what='inner product not preserved: <A y, A e_%d> - y_%d = %.3g' % (k, k, rep['diff']) if name == 'AtA' else 'energy not preserved: %.3g' % rep['diff'],
                                    facts=facts, replay=dict(kind='inner', y=yv.tolist(), k=int(k) if name == 'AtA' else None, tau=float(tau)), reproduced=rep['reproduced']))
     for name, k, model in s2 + s3 + s4:
+        if pc:
+            nm = solver.nice_model(solver._last_query, [int(a) for a in gflat_ids]) if hasattr(solver, '_last_query') else None
+            model = nm or model
         gvv = [core.model_array(model, gi) for gi in cot_ids]
         rep = _replay_g(cfg, gvv, name, k, float(tau), shape)
         res.violations.append(dict(what='%s: element %d differs by %.3g' % (name, k, rep['diff']), facts=facts,
-                                   replay=dict(kind='g', g=[g.tolist() for g in gvv], which=name, k=int(k), tau=float(tau)), reproduced=rep['reproduced']))
+                                   replay=dict(kind='g', g=[g.tolist() for g in gvv], which=name, k=int(k), tau=float(tau)), reproduced=rep['reproduced'], path_dependent=bool(pc)))
     if res.violations:
         res.status = 'violation'
     return res
